@@ -167,7 +167,16 @@ def _parts(e):
             if isinstance(v, ast.Constant):
                 out.append(('lit', str(v.value)))
             elif isinstance(v, ast.FormattedValue):
-                out += _parts(v.value)
+                spec = v.format_spec
+                if spec is None:
+                    out += _parts(v.value)
+                elif isinstance(spec, ast.JoinedStr) and len(spec.values) == 1 and isinstance(spec.values[0], ast.Constant) and \
+                        '%' in str(spec.values[0].value) and v.conversion == -1:
+                    # f"{x:%d.%m.%Y}" is format(x, spec): for datetime values the same as x.strftime(spec)
+                    out.append(('val', ast.copy_location(ast.Call(func=ast.Attribute(value=v.value, attr='strftime', ctx=ast.Load()),
+                                                                  args=[ast.Constant(value=spec.values[0].value)], keywords=[]), v)))
+                else:
+                    out.append(('val', v))
             else:
                 out.append(('val', v))
         return out
@@ -886,7 +895,9 @@ class Canon:
         """x = [E for ..] / x.extend(E for ..) -> loops with x.append(E);  x.append(self.h(..)) -> statements of h, x.append(<value>)"""
         for _ in range(6):
             self.changed = False
-            lists = {n.id for d in ast.walk(self.node) if isinstance(d, ast.Dict) for n in d.values if isinstance(n, ast.Name)}
+            lists = {n.id for d in ast.walk(self.node) if isinstance(d, ast.Dict) for n in d.values if isinstance(n, ast.Name)} | \
+                    {k.value.id for d in ast.walk(self.node) if isinstance(d, ast.Call) and isinstance(d.func, ast.Name) and
+                     d.func.id == 'dict' for k in d.keywords if isinstance(k.value, ast.Name)}
             self.node.body = self.list_block(self.node.body, lists)
             if not self.changed:
                 break
@@ -1676,7 +1687,7 @@ def check_partition(ctx, o, G: Gantt, M: str, reader: ast.For) -> bool:
     """M maps section -> tasks and is a partition of the WBS' tasks: `M = {}` once outside loops, filled by exactly one
     `M.setdefault(key, []).append(task)` per task of self.wbs.tasks before the reading loop, never touched otherwise"""
     f, cfg = G.f, cfg_of(G.f)
-    inits, adds, other = [], [], []
+    inits, adds, other, keyed = [], [], [], []
     consumed = set()
     for st in walk_no_nested(f.node):
         if isinstance(st, ast.Assign) and len(st.targets) == 1 and isinstance(st.targets[0], ast.Name) and st.targets[0].id == M:
@@ -1684,6 +1695,10 @@ def check_partition(ctx, o, G: Gantt, M: str, reader: ast.For) -> bool:
             consumed.add(id(st.targets[0]))
         elif isinstance(st, ast.Expr):
             m = match(f"{M}.setdefault($k, []).append($x)", st.value) or match(f"{M}.setdefault($k, list()).append($x)", st.value)
+            md = None if m else match(f"{M}[$k].append($x)", st.value)
+            if md:
+                keyed.append(st)          # only valid on a defaultdict(list), checked with the initialisation below
+            m = m or md
             if m:
                 adds.append((st, m['k'], m['x']))
                 consumed |= {id(n) for n in ast.walk(st) if isinstance(n, ast.Name) and n.id == M}
@@ -1705,8 +1720,13 @@ def check_partition(ctx, o, G: Gantt, M: str, reader: ast.For) -> bool:
     if other:
         raise Und(f, other[0], f"{M}: other use", f"the section map `{M}` is also used in a way the rule does not model "
                                                   f"(`{src(stmt_of(f.node, other[0]) or other[0])[:70]}`)")
-    if len(inits) != 1 or not (match("{}", inits[0].value) or match("dict()", inits[0].value)):
+    ddict = len(inits) == 1 and (
+        (f.module.imports.get('defaultdict') == 'collections.defaultdict' and match("defaultdict(list)", inits[0].value)) or
+        (f.module.imports.get('collections') == 'collections' and match("collections.defaultdict(list)", inits[0].value)))
+    if len(inits) != 1 or not (match("{}", inits[0].value) or match("dict()", inits[0].value) or ddict):
         raise Und(f, f.node, f"{M}: init", f"the section map `{M}` is not initialised exactly once with an empty dict")
+    if keyed and not ddict:
+        raise Und(f, keyed[0], keyed[0], f"`{src(keyed[0])[:60]}` on a plain dict (KeyError for a new section unless the key exists)")
     n0 = cfg.node_of(inits[0])
     if cfg.enclosing_loops(n0):
         o.refute(f, inits[0], f"{M} = {{}} in loop", f"the section map `{M}` is re-created inside a loop: earlier tasks are dropped")
@@ -2542,6 +2562,24 @@ def check_network(ctx, o, osk):
 
 
 # ------------------------------------------------------------------------------------------------------- dhtmlx
+def enumerated(loop: ast.For):
+    """(index name, element name, iterated expression) of `for i, x in enumerate(X[, start])`"""
+    it, tg = loop.iter, loop.target
+    if isinstance(it, ast.Call) and isinstance(it.func, ast.Name) and it.func.id == 'enumerate' and 1 <= len(it.args) <= 2 and \
+            all(k.arg == 'start' for k in it.keywords) and isinstance(tg, ast.Tuple) and len(tg.elts) == 2 and \
+            all(isinstance(x, ast.Name) for x in tg.elts):
+        return tg.elts[0].id, tg.elts[1].id, it.args[0]
+    return None
+
+
+def as_dict(e: ast.AST) -> ast.AST:
+    """`dict(a=x, b=y)` read as the display `{'a': x, 'b': y}`"""
+    if isinstance(e, ast.Call) and isinstance(e.func, ast.Name) and e.func.id == 'dict' and not e.args and e.keywords and \
+            all(k.arg is not None for k in e.keywords):
+        return ast.copy_location(ast.Dict(keys=[ast.Constant(value=k.arg) for k in e.keywords], values=[k.value for k in e.keywords]), e)
+    return e
+
+
 def origin(f: Func, e: ast.AST, at):
     """follow plain names to the expression they were (uniquely) assigned from: (original expr, cfg node)"""
     fl = flow_of(f)
@@ -2552,7 +2590,7 @@ def origin(f: Func, e: ast.AST, at):
                 e, at = d.value, d.node
                 continue
         break
-    return e, at
+    return as_dict(e), at
 
 
 def dict_items(d: ast.Dict) -> Optional[Dict[str, ast.AST]]:
@@ -2589,8 +2627,8 @@ def list_container(o, f: Func, name: str, payload: ast.AST):
             kids = par.args
         elif isinstance(par, (ast.If, ast.While, ast.IfExp)):
             kids = [par.test]
-        elif isinstance(par, ast.keyword):
-            kids = []
+        if isinstance(par, ast.Call) and isinstance(par.func, ast.Name) and par.func.id == 'dict' and not par.args:
+            kids = [k.value for k in par.keywords]
         for k in kids:
             if isinstance(k, ast.Name) and k.id == name:
                 consumed.add(id(k))
@@ -2637,7 +2675,7 @@ def check_dhtmlx(ctx, O):
         else:
             oj.undecided(f, ret, ret, f"the returned payload `{src(base_)[:70]}` is not json.dumps(..)")
         return
-    P = m['p']
+    P = as_dict(m['p'])
     items = dict_items(P) if isinstance(P, ast.Dict) else None
     if items is not None and {'data', 'links'} <= set(items):
         for k in ('data', 'links'):
@@ -2809,7 +2847,9 @@ def check_dhtmlx(ctx, O):
                     return
             Lk, kloops = L2, loops2
             tk = Lk.target.id
-        if len(rest) != 1 or not isinstance(rest[0], ast.For) or not isinstance(rest[0].target, ast.Name):
+        if len(rest) == 1 and isinstance(rest[0], ast.For) and enumerated(rest[0]) is not None:
+            pass
+        elif len(rest) != 1 or not isinstance(rest[0], ast.For) or not isinstance(rest[0].target, ast.Name):
             if not rest:
                 o.refute(f, st, f"{B}.append: per task", f"`{src(st)[:50]}` runs once per task, outside a loop over the task's "
                                                          f"predecessors: not one link per dependency")
@@ -2820,14 +2860,16 @@ def check_dhtmlx(ctx, O):
             o.undecided(f, st, st, "links are appended by two predecessor loops")
             return
         Pl = rest[0]
-    itp = strip_seq(for_iter(ctx, f, Pl))
+    en = enumerated(Pl)                   # for i, p in enumerate(t.predecessors[, k])
+    pidx = en[0] if en else None
+    itp = strip_seq(deep(ctx, f, en[2], flow_of(f).node_of_expr(Pl.iter))) if en else strip_seq(for_iter(ctx, f, Pl))
     if not match(f"{tk}.predecessors", itp):
         if match(f"{tk}.$a", itp) or isinstance(itp, (ast.ListComp, ast.Subscript)):
             o.refute(f, Pl, Pl.iter, f"links are produced for `{src(itp)[:60]}` instead of every element of `{tk}.predecessors`")
         else:
             o.undecided(f, Pl, Pl.iter, f"cannot relate `{src(itp)[:60]}` to `{tk}.predecessors`")
         return
-    p = Pl.target.id
+    p = en[1] if en else Pl.target.id
     if not per_iteration(o, f, Pl, {id(st): 'link' for st, _ in lapps}, 'link', f"{B}.append"):
         return
     if not per_iteration(o, f, Lk, {id(Pl): 'ploop'}, 'ploop', 'loop over the predecessors'):
@@ -2860,6 +2902,39 @@ def check_dhtmlx(ctx, O):
         idv = it['id']
         if match(f"len({B}) + $k", idv) or match(f"len({B})", idv) or match(f"$k + len({B})", idv):
             o.site(f, st, f"link id = {src(idv)} (grows with every append)")
+            continue
+        if pidx is not None and any(isinstance(x, ast.Name) and x.id == pidx for x in ast.walk(idv)) and \
+                not any(isinstance(x, ast.Name) and x.id != pidx and x.id not in (tk, p) for x in ast.walk(idv)):
+            o.refute(f, st, f"link id: {src(idv)} from {src(Pl.iter)[:40]}",
+                     f"link id `{src(idv)}` is the position of the predecessor inside `{src(Pl.iter)[:50]}`: numbering restarts for every "
+                     f"task, so link ids are not unique (expected a counter that runs over all links)")
+            counter_ok = False
+            continue
+        mn = match("next($c)", idv)
+        if mn and isinstance(mn['c'], ast.Name):
+            c = mn['c'].id
+            ds = fl.defs_of(c)
+            cnt = ds[0].value if len(ds) == 1 and ds[0].kind == 'assign' else None
+            is_count = cnt is not None and (
+                (f.module.imports.get('count') == 'itertools.count' and isinstance(cnt, ast.Call) and match("count", cnt.func)) or
+                (f.module.imports.get('itertools') == 'itertools' and isinstance(cnt, ast.Call) and match("itertools.count", cnt.func)))
+            uses = [x for x in walk_no_nested(f.node, include_lambdas=True) if isinstance(x, ast.Name) and x.id == c and
+                    isinstance(x.ctx, ast.Load)]
+            nexts = [x for x in walk_no_nested(f.node, include_lambdas=True) if isinstance(x, ast.Call) and match(f"next({c})", x)]
+            if not is_count or len(uses) != len(nexts):
+                o.undecided(f, st, idv, f"link id `{src(idv)}`: `{c}` is not a single itertools.count(..) used only through next()")
+                counter_ok = False
+            elif cfg.enclosing_loops(ds[0].node):
+                lp = chains[id(ds[0].stmt)]
+                o.refute(f, ds[0].stmt, f"{c} = {src(cnt)} inside a loop",
+                         f"link counter `{c} = {src(cnt)}` is created inside `{hdr(lp[-1]) if lp else 'a loop'}`: numbering restarts on "
+                         f"every iteration and link ids are no longer unique (expected one counter created before all loops)")
+                counter_ok = False
+            elif not cfg.dominates(ds[0].node, cfg.node_of(Pl)):
+                o.refute(f, ds[0].stmt, f"{c}: init after use", f"link counter `{c}` is not created before the link loop on every path")
+                counter_ok = False
+            else:
+                o.site(f, st, f"link id = next({c}), {c} = {src(cnt)} created once before all loops: every id is fresh")
             continue
         if not isinstance(idv, ast.Name):
             o.undecided(f, st, idv, f"link id `{src(idv)}` is neither a counter variable nor len({B})+k")
